@@ -1087,10 +1087,26 @@ fn decoy(r: &mut Rng, q: &Qd, buf: usize) -> String {
     decoy_tc(r, q, buf, 1)
 }
 
+/// flags of a response: QR set, OPCODE 0, TC as asked, every other bit and the RCODE at random (a
+/// truncated answer is truncated whatever its RCODE says)
+fn resp_flags(r: &mut Rng, tc: bool) -> u16 {
+    let mut fl: u16 = 0x8000;
+    if tc {
+        fl |= 0x0200;
+    }
+    for bit in [0x0400u16, 0x0100, 0x0080, 0x0040, 0x0020, 0x0010] {
+        if r.chance(1, 2) {
+            fl |= bit;
+        }
+    }
+    fl | *r.pick(&[0u16, 0, 0, 1, 2, 3, 4, 5, 9, 15])
+}
+
 /// `tc4`/4 of the decoys carry the TC flag (a datagram that is skipped must not influence the
 /// fallback decision either)
 fn decoy_tc(r: &mut Rng, q: &Qd, buf: usize, tc4: u64) -> String {
-    let fl: u16 = if r.chance(tc4, 4) { 0x8380 } else { 0x8180 };
+    let tc = r.chance(tc4, 4);
+    let fl: u16 = if r.chance(1, 2) { resp_flags(r, tc) } else if tc { 0x8380 } else { 0x8180 };
     let right = msg_tail(fl, 1, 0, &q.question(false), &[]);
     match r.below(13) {
         0 => {
@@ -1426,7 +1442,8 @@ fn gen_c13(r: &mut Rng, index: u64) -> String {
     let buf = *r.pick(&[512usize, 1232]);
     let n = r.below(4);
     let mut e0: Vec<String> = (0..n).map(|_| decoy_tc(r, &q, buf, 2)).collect();
-    let flags = if r.chance(2, 3) { 0x8380 } else { 0x8180 };
+    let tc = r.chance(2, 3);
+    let flags = if r.chance(2, 3) { resp_flags(r, tc) } else if tc { 0x8380 } else { 0x8180 };
     e0.push(format!("IIII{}", hx(&msg_tail(flags, 1, 0, &q.question(false), &[]))));
     let ans = a_records(r, 1);
     let tcp_tail = msg_tail(0x8180, 1, 1, &q.question(false), &ans);
